@@ -33,6 +33,7 @@ fn space_for(tier: Tier) -> Space {
             s.list("flagstrings", 1 + 11 + 121 + 1331, 128);
             s.list("triggers", crate::checks::c08::triggers().len() as u64, 16);
             s.list("whitespace under x", xws_crash_cases().len() as u64, 16);
+            s.list("extreme counts", extreme_count_cases().len() as u64, 16);
         }
         Tier::Thorough => {
             s.ast("K", 5, 64).ast("Q", 3, 64).ast("CL", 3, 64).ast("G", 6, 64).ast("AN", 4, 64).ast("U", 4, 64).ast("CI", 3, 64).ast("ALT", 4, 64).ast("NEST", 6, 64).ast("GCM", 4, 64).ast("CAPQ", 6, 64).ast("BR", 5, 64);
@@ -40,6 +41,7 @@ fn space_for(tier: Tier) -> Space {
             s.list("flagstrings", 1 + 11 + 121 + 1331, 128);
             s.list("triggers", crate::checks::c08::triggers().len() as u64, 16);
             s.list("whitespace under x", xws_crash_cases().len() as u64, 16);
+            s.list("extreme counts", extreme_count_cases().len() as u64, 16);
         }
     }
     s
@@ -57,6 +59,28 @@ fn xws_crash_cases() -> Vec<String> {
                 t.push(ws);
                 t.extend(&cs[gap..]);
                 v.push(t);
+            }
+        }
+    }
+    v
+}
+
+/// Counted quantifiers with counts around 2^31, 2^32, 2^63 and 2^64 on bodies of
+/// length 1, 2 and 3, alone, followed by a literal, and twice in a sequence (the
+/// length arithmetic of the compile-time analyses).
+pub fn extreme_count_cases() -> Vec<String> {
+    let ns = ["2147483647", "2147483648", "4294967295", "4294967296", "6148914691236517206", "9223372036854775807", "9223372036854775808", "18446744073709551615", "18446744073709551616", "99999999999999999999"];
+    let bodies = ["a", "(?:ab)", "(ab)", "(?:abc)", "[ab]", "(?:a|bc)", "(?:a|b)", ".", "\\d"];
+    let mut v = vec![];
+    for n in ns {
+        for b in bodies {
+            for q in [format!("{{{}}}", n), format!("{{{},}}", n), format!("{{0,{}}}", n), format!("{{1,{}}}", n), format!("{{{}}}?", n), format!("{{{},}}?", n), format!("{{2,{}}}?", n)] {
+                v.push(format!("{}{}", b, q));
+                v.push(format!("{}{}b", b, q));
+                v.push(format!("^{}{}$", b, q));
+                v.push(format!("c{}{}", b, q));
+                v.push(format!("{}{}{}{}", b, q, b, q));
+                v.push(format!("(?:{}{}){{2}}", b, q));
             }
         }
     }
@@ -233,6 +257,23 @@ impl Check for Crash {
                         }
                     }
                     j.out.sample(J::obj(vec![("pattern_with_whitespace", J::s(text)), ("flags", J::s("x, xi, xq"))]));
+                }
+            }
+            SegKind::List { name: "extreme counts" } => {
+                let t = extreme_count_cases();
+                let inputs: Vec<String> = ["", "a", "ab", "abab", "cab", "aaaaaaaaaaaaaaaaaaaaaaaaaaaaaaaaaaaaaaaa"].iter().map(|s| s.to_string()).collect();
+                for i in lo..hi {
+                    let text = &t[i as usize];
+                    for (flags, xsd) in [("", false), ("i", false), ("", true)] {
+                        j.out.pin(&|| format!("compile {:?} {:?}", text, flags));
+                        let c = imp::compile(text, flags, xsd);
+                        j.obs(&Case::new(&scope_name, text, flags).xsd(xsd).api("compile"), &c, &[EK::Syntax, EK::InvalidFlags]);
+                        if let Out::Ok(re) = c {
+                            j.out.inc("nontrivial");
+                            drive(&mut j, &scope_name, text, flags, xsd, &re, &inputs, &["<$0>", "$1\\$"], usize::MAX);
+                        }
+                    }
+                    j.out.sample(J::obj(vec![("pattern", J::s(text))]));
                 }
             }
             SegKind::List { name: "triggers" } => {
